@@ -783,6 +783,52 @@ def _unroll_literal_loops(fn):
     return k
 
 
+_INV = {ast.Eq: ast.NotEq, ast.NotEq: ast.Eq, ast.Is: ast.IsNot, ast.IsNot: ast.Is, ast.In: ast.NotIn, ast.NotIn: ast.In,
+        ast.Lt: ast.GtE, ast.GtE: ast.Lt, ast.Gt: ast.LtE, ast.LtE: ast.Gt}
+
+
+def _negate(e):
+    if isinstance(e, ast.UnaryOp) and isinstance(e.op, ast.Not):
+        return e.operand
+    if isinstance(e, ast.Compare) and len(e.ops) == 1 and type(e.ops[0]) in _INV:
+        return ast.copy_location(ast.Compare(left=e.left, ops=[_INV[type(e.ops[0])]()], comparators=e.comparators), e)
+    return ast.copy_location(ast.UnaryOp(op=ast.Not(), operand=e), e)
+
+
+def _surely_bool(e):
+    return isinstance(e, ast.Compare) or (isinstance(e, ast.UnaryOp) and isinstance(e.op, ast.Not)) or \
+        (isinstance(e, ast.Call) and isinstance(e.func, ast.Name) and e.func.id in ("isinstance", "bool", "callable", "hasattr"))
+
+
+def _boolean_returns(fn):
+    """`return A or B` with A certainly a bool -> `if A: return True` + `return B`;  `return A and B` -> `if not A: return False` +
+    `return B` (the value returned is the same object on every path because A is a comparison / negation)."""
+    k = 0
+    for node in ast.walk(fn):
+        for b in _blocks_of(node):
+            i = 0
+            while i < len(b):
+                st = b[i]
+                v = st.value if isinstance(st, ast.Return) else None
+                if isinstance(v, ast.BoolOp) and len(v.values) >= 2 and _surely_bool(v.values[0]):
+                    first, rest = v.values[0], v.values[1:]
+                    rest_e = rest[0] if len(rest) == 1 else ast.copy_location(ast.BoolOp(op=v.op, values=rest), v)
+                    if isinstance(v.op, ast.Or):
+                        guard = ast.If(test=first, body=[ast.Return(value=ast.Constant(True))], orelse=[])
+                    else:
+                        guard = ast.If(test=_negate(first), body=[ast.Return(value=ast.Constant(False))], orelse=[])
+                    new_ret = ast.Return(value=rest_e)
+                    for x in (guard, new_ret):
+                        ast.copy_location(x, st)
+                        ast.fix_missing_locations(x)
+                    b[i:i + 1] = [guard, new_ret]
+                    k += 1
+                    i += 1          # re-examine the new return (it may be a further and/or)
+                    continue
+                i += 1
+    return k
+
+
 def _find_fn(m, qual):
     if "." in qual:
         cn, mn = qual.split(".", 1)
@@ -927,6 +973,9 @@ def canonicalise(repo):
                 k = _expand_generator_idioms(fn)
                 if k:
                     done.append((m.name, fn.name, "<generator idioms expanded>", k))
+                k = _boolean_returns(fn)
+                if k:
+                    done.append((m.name, fn.name, "<boolean returns as guards>", k))
                 k = _ifexp_statements(fn)
                 if k:
                     done.append((m.name, fn.name, "<conditional expressions as statements>", k))
